@@ -24,7 +24,11 @@ class _BaseMMC(MahalanobisMixin):
                     ' version 0.6.3 and will be removed in 0.7.0'
                     '', FutureWarning)
       tol = convergence_threshold
-    self.convergence_threshold = 'deprecated'  # Avoid errors
+    # the sentinel is stored as given: scikit-learn's clone compares
+    # constructor parameters by identity (e.g. after unpickling)
+    self.convergence_threshold = (
+        convergence_threshold if convergence_threshold == 'deprecated'
+        else 'deprecated')
     self.max_iter = max_iter
     self.max_proj = max_proj
     self.tol = tol
@@ -575,7 +579,10 @@ class MMC_Supervised(_BaseMMC, TransformerMixin):
     else:
       self.n_constraints = n_constraints
     # Avoid test get_params from failing (all params passed sholud be set)
-    self.num_constraints = 'deprecated'
+    # the sentinel is stored as given: scikit-learn's clone compares
+    # constructor parameters by identity (e.g. after unpickling)
+    self.num_constraints = (num_constraints if num_constraints == 'deprecated'
+                            else 'deprecated')
 
   def fit(self, X, y):
     """Create constraints from labels and learn the MMC model.
